@@ -107,8 +107,8 @@ Definition u_init : cfg := mkCfg [] init_st.
 Definition u_reach : list cfg :=
   match explore u_env u_alphabet 4000 [u_init] [u_init] with Some v => v | None => [] end.
 
-Lemma u_reach_closed :
-  (fun V => closed u_env u_alphabet V && inb u_init V) u_reach = true.
+Definition u_check : bool := let V := u_reach in closed u_env u_alphabet V && inb u_init V.
+Lemma u_reach_closed : u_check = true.
 Proof. vm_compute. reflexivity. Qed.
 
 (* every history over the universe (any length) whose intermediate object sets
@@ -118,10 +118,12 @@ Proof. vm_compute. reflexivity. Qed.
 Theorem incremental_equals_scratch_small_scope : forall h,
   guards_along u_env u_alphabet u_init h ->
   let c := fold_left (cstep u_env) h u_init in
-  view_matches_spec u_env (c_objs c) (c_st c) = true /  s_ready (c_st c) = true /\ s_fuel (c_st c) = false /  views_agree (c_objs c) (c_st c) (scratch u_env (c_objs c)) = true.
+  view_matches_spec u_env (c_objs c) (c_st c) = true /\
+  s_ready (c_st c) = true /\ s_fuel (c_st c) = false /\
+  views_agree (c_objs c) (c_st c) (scratch u_env (c_objs c)) = true.
 Proof.
   intros h Hg c.
-  pose proof u_reach_closed as HC. cbv beta in HC. apply andb_true_iff in HC. destruct HC as [HC Hi].
+  pose proof u_reach_closed as HC. unfold u_check in HC. cbv zeta in HC. apply andb_true_iff in HC. destruct HC as [HC Hi].
   pose proof (closed_sound u_env u_alphabet u_reach HC h u_init (inb_In _ _ Hi) Hg) as G.
   fold c in G. unfold good in G.
   repeat (apply andb_true_iff in G; destruct G as [G ?]).
